@@ -292,7 +292,43 @@ fn canaries(mon: &mut Monitor) {
     });
 }
 
+
+fn empty_folds(mon: &mut Monitor) {
+    if let Some(mut c) = mon.begin("iterator folds", "empty and single-element Sum / Product of quaternions") {
+        macro_rules! chk {
+            ($($Q:ident),*) => {$({
+                let t = stringify!($Q);
+                let q = <$Q>::from_xyzw(0.5, -1.25, 2.0, 0.75);
+                let zero = <$Q>::from_xyzw(0.0, 0.0, 0.0, 0.0);
+                let cases: Vec<(&'static str, $Q, $Q)> = vec![
+                    ("Product of nothing (by value)", core::iter::empty::<$Q>().product::<$Q>(), <$Q>::IDENTITY),
+                    ("Product of nothing (by reference)", core::iter::empty::<&$Q>().product::<$Q>(), <$Q>::IDENTITY),
+                    ("Sum of nothing (by value)", core::iter::empty::<$Q>().sum::<$Q>(), zero),
+                    ("Sum of nothing (by reference)", core::iter::empty::<&$Q>().sum::<$Q>(), zero),
+                    ("Product of one (by value)", [q].into_iter().product::<$Q>(), q),
+                    ("Product of one (by reference)", [q].iter().product::<$Q>(), q),
+                    ("Sum of one (by value)", [q].into_iter().sum::<$Q>(), q),
+                    ("Sum of one (by reference)", [q].iter().sum::<$Q>(), q),
+                    ("Sum of two (by value)", [q, q].into_iter().sum::<$Q>(), q + q),
+                    ("Product of two non-unit (by value)", [q, q].into_iter().product::<$Q>(), q * q),
+                    ("Product of two non-unit (by reference)", [q, q].iter().product::<$Q>(), q * q),
+                ];
+                for (nm, got, want) in cases {
+                    c.event(vcommon::rng::hash_str(nm) ^ vcommon::rng::hash_str(t), true);
+                    if got.to_array().iter().zip(want.to_array().iter()).any(|(a, b)| a != b) {
+                        c.violation("fold_identity", &[nm], format!("{} {}", t, nm), format!("{:?}", got), format!("{:?}", want), String::new());
+                    }
+                }
+            })*};
+        }
+        chk!(Quat, DQuat);
+        c.sample("Sum / Product of empty, one- and two-element iterators of (non-unit) quaternions, by value and by reference".into());
+        mon.end(c);
+    }
+}
+
 pub fn run(mon: &mut Monitor) {
+    empty_folds(mon);
     canaries(mon);
     suite(mon, &quat_api!(Quat, f32, Vec3, [
         "mul_vec3a" => |a: [f32; 4], v: [f32; 3]| Quat::from_array(a).mul_vec3a(<Vec3A as crate::gen::FromLanes<f32, 3>>::mk(v)).to_array(),
